@@ -212,6 +212,48 @@ def rex_structured_columns(thorough=False, name='a', fam='rexs'):
         yield {'name': name, 'fam': fam, 'v': vals}
 
 
+# ----------------------------------------------- run lengths (rex pipelines)
+
+RUN_CHARS = ['0', '5', 'a', '-', ' ']
+RUN_PREFIXES = ['', 'ID']
+# nothing / a digit above and below '5' / a letter below and above 'a' /
+# punctuation then a letter / punctuation sorting below everything
+RUN_SUFFIXES = ['', '1', '7', 'B', 'b', '-z', '!']
+RUN_LENGTHS = [0, 1, 2, 3, 4]
+
+
+def run_length_values(thorough=False):
+    """String columns in which ONE character is repeated a varying number
+    of times: prefix + c * n + suffix for n over EVERY subset (>= 2
+    members) of the run lengths 0..4 (thorough 0..5), c over digits / letters / punctuation /
+    space, with nothing, a same-class character sorting above or below c, a
+    character of the other alphanumeric class or punctuation behind the run
+    (tdda hands rexpy the SORTED distinct values, so what follows the run
+    decides whether the shortest or the longest run arrives first), with
+    and without an alphanumeric prefix.  Then two runs varying in one value
+    (c1 * i + c2 * j for every 3-subset of the 3 x 3 grid of (i, j))."""
+    lengths = RUN_LENGTHS + ([5] if thorough else [])
+    subsets = [s for k in range(2, len(lengths) + 1)
+               for s in itertools.combinations(lengths, k)]
+    for c in RUN_CHARS:
+        for pre in RUN_PREFIXES:
+            for suf in RUN_SUFFIXES:
+                if suf[:1] == c:
+                    continue            # would lengthen the run itself
+                for lens in subsets:
+                    yield [pre + c * n + suf for n in lens]
+    grid = [(i, j) for i in (1, 2, 3) for j in (1, 2, 3)]
+    for (c1, c2) in (('a', 'b'), ('b', 'a'), ('0', '7'), ('a', '1'),
+                     ('-', 'a')):
+        for pts in itertools.combinations(grid, 3):
+            yield [c1 * i + c2 * j for (i, j) in pts]
+
+
+def run_length_columns(thorough=False, name='a', fam='rexs'):
+    for vals in run_length_values(thorough):
+        yield {'name': name, 'fam': fam, 'v': vals}
+
+
 # ------------------------------------------------------------ null flavours
 
 def null_sequences():
@@ -486,6 +528,62 @@ def frame_histories(thorough=False):
                                'hist': [{'cols': [fixed(fa)]},
                                         {'cols': [fixed(fc)]}],
                                'frame': {'cols': [fixed(fb)]}}
+
+
+PATH_FORMS = ['str', 'Path', 'rel']     # absolute str, pathlib.Path, relative
+PATH_LOADERS = ['verify', 'detect', 'load']
+PATH_WRITES = ['w', 'replace']          # truncate in place / new file moved in
+PATH_CORE_FAMILIES = ['i64', 'f64', 'boolobj', 'strobj', 'cat', 'dtus']
+
+
+def path_histories(thorough=False):
+    """Histories on ONE .tdda path: constraints discovered from an earlier
+    frame are written to the path and the path is read (verify_df /
+    detect_df / DatasetConstraints(loadpath=...)), then the path is
+    rewritten with the constraints discovered from the last frame, which is
+    verified and detected against it.  Yields {'hist': [frame], 'frame':
+    last, 'spec': {'f1': form of the path in the earlier reads, 'f2': form in
+    the last reads, 'first': how the earlier read happened, 'write': how the
+    file is rewritten}}.  Every ordered pair of families (same column name;
+    and an earlier frame with ANOTHER column name) under the plain spec; the
+    full product of forms x loaders x rewrite modes over the ordered pairs
+    of six core families (thorough: of all families)."""
+    fams = BASE_FAMILIES + (EXTRA_FAMILIES if thorough else [])
+
+    def fixed(fam, name='a', last=True):
+        v = FAMILIES[fam]['values']
+        return {'name': name, 'fam': fam, 'v': v[-2:] if last else v[:2]}
+
+    def pairs(families):
+        for fa in families:
+            for fb in families:
+                A, B = fixed(fa), fixed(fb)
+                if fa == fb:
+                    B = fixed(fb, last=False)
+                    if B['v'] == A['v']:
+                        B = dict(B, v=A['v'][:1] * 2)
+                yield A, B
+    plain = {'f1': 'str', 'f2': 'str', 'first': 'verify', 'write': 'w'}
+    for A, B in pairs(fams):
+        yield {'hist': [{'cols': [A]}], 'frame': {'cols': [B]},
+               'spec': plain}
+        yield {'hist': [{'cols': [dict(A, name='b c')]}],
+               'frame': {'cols': [B]}, 'spec': plain}
+    for A, B in pairs(fams if thorough else PATH_CORE_FAMILIES):
+        for f1 in PATH_FORMS:
+            for f2 in PATH_FORMS:
+                for first in PATH_LOADERS:
+                    for write in PATH_WRITES:
+                        spec = {'f1': f1, 'f2': f2, 'first': first,
+                                'write': write}
+                        if spec != plain:
+                            yield {'hist': [{'cols': [A]}],
+                                   'frame': {'cols': [B]}, 'spec': spec}
+    if thorough:                         # two earlier frames
+        for A, B in pairs(PATH_CORE_FAMILIES):
+            for fc in PATH_CORE_FAMILIES:
+                yield {'hist': [{'cols': [A]}, {'cols': [fixed(fc)]}],
+                       'frame': {'cols': [B]}, 'spec': plain}
 
 
 def mutate_into(df, frame):
